@@ -29,6 +29,7 @@ type SpecFunc struct {
 	err       string
 	done      bool
 	axioms    []string // extra (wf) axioms
+	opaque    bool     // uninterpreted for the prover (executable in Go only)
 }
 
 type World struct {
@@ -44,6 +45,7 @@ type World struct {
 	varAlias   map[string]string
 	needItoa   bool
 	needHex    bool
+	needFsRead bool
 	loadErrors []string
 	funcs      map[string]*FuncSite // pkgpath::Recv.Name -> site
 	regexVars  map[string]string    // objKey of package-level regex var -> pattern literal
@@ -52,6 +54,7 @@ type World struct {
 	regexInfos map[string]*RegexInfo
 	localRegex map[string]string // pkgname.Func:var -> literal
 	cg         *CallGraph
+	regexIDs   map[string]string
 }
 
 type FuncSite struct {
@@ -109,6 +112,13 @@ func loadWorld(repo string) (*World, error) {
 					nm := fd.Name.Name
 					if strings.HasPrefix(nm, "Lemma") || strings.HasPrefix(nm, "lemma") {
 						w.funcs[p.PkgPath+"::"+nm] = &FuncSite{pkg: p, decl: fd, name: nm}
+					}
+					if strings.HasPrefix(nm, "Opaque") {
+						fn := p.TypesInfo.Defs[fd.Name].(*types.Func)
+						sf := &SpecFunc{fn: fn, decl: fd, pkg: p, smtName: "op_" + sanitize(pkgShort(p.PkgPath)) + "_" + nm, deps: map[*SpecFunc]bool{}, opaque: true}
+						w.specFuncs[fn] = sf
+						w.specByName[p.Name+"."+nm] = sf
+						w.specList = append(w.specList, sf)
 					}
 					if strings.HasPrefix(nm, "Spec") || strings.HasPrefix(nm, "spec") {
 						fn := p.TypesInfo.Defs[fd.Name].(*types.Func)
@@ -199,6 +209,7 @@ func loadWorld(repo string) (*World, error) {
 	}
 	w.regexByName = map[string]string{}
 	w.regexInfos = map[string]*RegexInfo{}
+	w.regexIDs = map[string]string{}
 	w.localRegex = map[string]string{}
 	w.collectRegexVars()
 	for key, site := range w.funcs {
@@ -290,6 +301,14 @@ func (w *World) translateSpec(sf *SpecFunc) {
 		return
 	}
 	sf.rsort = sortOf(sig.Results().At(0).Type())
+	if sf.opaque {
+		for i := 0; i < sig.Params().Len(); i++ {
+			pp := sig.Params().At(i)
+			sf.params = append(sf.params, fmt.Sprintf("p%d_%s", i, sanitize(pp.Name())))
+			sf.psorts = append(sf.psorts, sortOf(pp.Type()))
+		}
+		return
+	}
 	fc := &FnCtx{w: w, pkg: sf.pkg, name: sf.fn.Name(), qname: "spec:" + sf.fn.Name(),
 		initial: map[string]Val{}, obls: map[string]*Obligation{}, loopOrd: map[ast.Stmt]int{}, siteOrd: map[ast.Node]int{},
 		siteCount: map[string]int{}, unmodelled: map[string]bool{}, externs: map[string]bool{}, regexUsed: map[string]bool{}}
@@ -479,6 +498,9 @@ func (w *World) specText(text string) string {
 		}
 	}
 	for _, sf := range ordered {
+		if sf.opaque {
+			onCycle[sf] = true
+		}
 		if onCycle[sf] {
 			_, ss := sig(sf)
 			fmt.Fprintf(&b, "(declare-fun %s (%s) %s)\n", sf.smtName, ss, sf.rsort.smt())
@@ -508,7 +530,9 @@ func (w *World) specText(text string) string {
 		}
 		ps, _ := sig(sf)
 		app := "(" + sf.smtName + " " + strings.Join(sf.params, " ") + ")"
-		fmt.Fprintf(&b, "(assert (forall (%s) (! (= %s %s) :pattern (%s))))\n", ps, app, sf.body, app)
+		if !sf.opaque {
+			fmt.Fprintf(&b, "(assert (forall (%s) (! (= %s %s) :pattern (%s))))\n", ps, app, sf.body, app)
+		}
 		if sf.rsort == SStr || sf.rsort == SSL {
 			var wfs []string
 			for i, p := range sf.params {
